@@ -9,7 +9,7 @@ import shutil
 import vlib
 from vlib import Inconclusive
 
-ALL_INVARIANTS = ["ReadExact", "CloseNoTrunc", "NoSpuriousEOF", "Decodable", "AckSound", "RetxSame",
+ALL_INVARIANTS = ["ReadExact", "CloseNoTrunc", "NoSpuriousEOF", "Decodable", "AckSound", "RetxSame", "CloseSeqUnique",
                   "SeqDense", "TxContiguous", "FitsMTU", "FitsFields", "PadOK", "Completes", "Attributed", "OnTime", "NonceOK", "LEOK"]
 
 
